@@ -19,7 +19,8 @@ RULE = ('Histories: a duplicate-free candidate list (1-60 tuples of strings / in
         'so the real call site and its in-place shuffle are exercised; in "multi" histories two or three disjoint stable lists '
         'share the sampler and every batch names the list it samples from (fairness is asserted per list); "prior" histories run '
         'mixed_rank_graph under a reference-model heuristic with an owned pool that records the submitted combinations; "large" '
-        'histories use 10 001-13 000 candidates with caps around and above 10^4. After every batch the model (a Counter of selections) '
+        'histories use 10 001-13 000 candidates with caps around and above 10^4; "overlap" histories alternate two lists that share '
+        'candidates (per-batch clauses only); "construction" histories observe the sampler through compute_combined_features. After every batch the model (a Counter of selections) '
         'and the invariants are checked. Exhaustive: every cap sequence of length <=5 (caps 1..len+1) over lists of 1-4 '
         'candidates. Non-trivial = >=3 batches, some cap < len and >=2 different caps; distinct = digest of the history.')
 ASSUMPTIONS = ['the oracle does not require a particular tie order among equally counted candidates',
@@ -59,6 +60,27 @@ def prior_history(draw):
     ref = draw(st.lists(st.sampled_from([n for n in names if n != 'label']), min_size=1, max_size=max(1, ncols - 2), unique=True))
     steps = draw(st.lists(st.integers(1, len(names) + 2), min_size=1, max_size=12))
     return {'mode': 'prior', 'cols': names, 'ref': ref, 'steps': [['p', c] for c in steps]}
+
+
+@st.composite
+def overlap_history(draw):
+    """Two stable lists that SHARE candidates (as the construction list combinations(features, 2) sits inside the ranking list
+    combinations_with_replacement(features, 2) under --interaction_order 2). Counts are then shared, so only per-batch clauses
+    are asserted: cap distinct candidates, taken from the least-evaluated ones, counts = selections."""
+    k = draw(st.integers(3, 7))
+    feats = [f'f{i}' for i in range(k)]
+    steps = draw(st.lists(st.tuples(st.integers(0, 1), st.integers(1, 8)).map(list), min_size=2, max_size=30))
+    return {'mode': 'overlap', 'feats': feats, 'steps': steps}
+
+
+@st.composite
+def construction_history(draw):
+    """The feature-construction call site (compute_combined_features) over several batches: which interaction columns are
+    built is what the sampler selected there."""
+    k = draw(st.integers(3, 7))
+    order = draw(st.sampled_from([2, 2, 3])) if k >= 4 else 2
+    steps = draw(st.lists(st.integers(1, 12), min_size=2, max_size=14))
+    return {'mode': 'construction', 'k': k, 'order': order, 'steps': [['c', c] for c in steps]}
 
 
 @st.composite
@@ -234,7 +256,84 @@ def check_prior(case):
         os.unlink(path)
 
 
+def check_overlap(case):
+    import itertools as it
+    feats = case['feats']
+    lists = [list(it.combinations(feats, 2)), list(it.combinations_with_replacement(feats, 2))]
+    stubs.reset_globals()
+    model = Counter()
+    for si, (li, cap) in enumerate(case['steps']):
+        cands = lists[int(li)]
+        before = {c: model[c] for c in cands}
+        args = stubs.make_args(heuristic='Constant', combination_number_upper_bound=int(cap))
+        got = cr.prior_combinations_sample(list(cands), args)
+        where = f'batch {si + 1} ({"construction" if int(li) == 0 else "ranking"} list of {len(cands)}, cap {cap})'
+        if len(got) != min(cap, len(cands)) or len(set(got)) != len(got) or any(g not in before for g in got):
+            raise Violation(f'{where}: returned {len(got)} combinations, expected min(cap, len) distinct candidates', kind='C07/size')
+        chosen = set(got)
+        if chosen != set(cands):
+            mx_in = max(before[g] for g in chosen)
+            mn_out = min(before[c] for c in cands if c not in chosen)
+            if mx_in > mn_out:
+                worst = max(chosen, key=lambda g: before[g])
+                least = min((c for c in cands if c not in chosen), key=lambda c: before[c])
+                raise Violation(f'{where}: selected {worst} (evaluated {mx_in}x) although {least} was evaluated only {mn_out}x',
+                                kind='C07/least-evaluated')
+        for g in got:
+            model[g] += 1
+        impl = dict(cr.GLOBAL_PRIOR_COMB_COUNTS)
+        for c in lists[1]:
+            if impl.get(c, 0) != model[c]:
+                raise Violation(f'{where}: reported count of {c} is {impl.get(c, 0)}, selected in {model[c]} batches', kind='C07/counter')
+
+
+def check_construction(case):
+    import itertools as it
+    k, order = int(case['k']), int(case['order'])
+    feats = [f'f{i}' for i in range(k)]
+    df = pd.DataFrame({**{f: ['a', 'b', 'a', 'c'] for f in feats}, 'label': ['0', '1', '0', '1']})
+    cands = list(it.combinations(feats, order))
+    stubs.reset_globals()
+    model = Counter()
+    for si, (_, cap) in enumerate(case['steps']):
+        before = {c: model[c] for c in cands}
+        args = stubs.make_args(heuristic='MI-numba-randomized', interaction_order=order, combination_number_upper_bound=int(cap))
+        out = cr.compute_combined_features(df, args, stubs.PBar())
+        built = [tuple(str(c).split(' AND ')) for c in out.columns[df.shape[1]:]]
+        where = f'batch {si + 1} (feature construction, order {order}, {len(cands)} candidates, cap {cap})'
+        if len(built) != min(cap, len(cands)) or len(set(built)) != len(built) or any(b not in before for b in built):
+            raise Violation(f'{where}: {len(built)} interaction features built ({built[:3]}...), expected min(cap, #candidates) distinct '
+                            f'candidates', kind='C07/size')
+        chosen = set(built)
+        if chosen != set(cands):
+            mx_in = max(before[g] for g in chosen)
+            mn_out = min(before[c] for c in cands if c not in chosen)
+            if mx_in > mn_out:
+                raise Violation(f'{where}: built a combination already built {mx_in}x while one built {mn_out}x was left out '
+                                f'(counts before: {sorted(before.values())})', kind='C07/least-evaluated')
+        for g in built:
+            model[g] += 1
+        counts = [model[c] for c in cands]
+        if max(counts) - min(counts) > 1:
+            raise Violation(f'{where}: construction counts differ by more than one: {sorted(counts)}', kind='C07/fairness')
+        impl = dict(cr.GLOBAL_PRIOR_COMB_COUNTS)
+        for c in cands:
+            if impl.get(c, 0) != model[c]:
+                raise Violation(f'{where}: reported count of {c} is {impl.get(c, 0)}, it was selected in {model[c]} batches',
+                                kind='C07/counter')
+
+
 def oracle(case, rec):
+    if case['mode'] == 'overlap':
+        rec.cls('overlapping-lists')
+        rec.nt(len(case['steps']) >= 3 and len({li for li, _ in case['steps']}) == 2, key=case)
+        check_overlap(case)
+        return
+    if case['mode'] == 'construction':
+        rec.cls('construction-call-site')
+        rec.nt(len(case['steps']) >= 3, key=case)
+        check_construction(case)
+        return
     if case['mode'] == 'multi':
         lists = [[tuple(c) for c in cl] for cl in case['lists']]
         steps = [(int(li), int(cap)) for li, cap in case['steps']]
@@ -302,7 +401,7 @@ def run(ctx):
     ctx.extra['exhaustive_scope'] = f'all cap sequences of length <=5 (caps 1..len+1) over 1-4 candidates: {tot} histories'
     clauses = [
         Clause('C07/history', lambda: st.one_of(direct_history(), direct_history(), pipeline_history(), pipeline_history(), multi_history(),
-                                                multi_history(), prior_history(), large_history()), oracle, quick=900, thorough=180000,
+                                                multi_history(), prior_history(), large_history(), overlap_history(), construction_history()), oracle, quick=900, thorough=180000,
                quick_shards=6),
     ]
     drive(ctx, clauses)
